@@ -68,9 +68,7 @@ def tables(pack=True, unpack=True):
 
 def wrapper():
     """the cache-file decorator: the wrapped helper gets the user's file, or a temporary file written from the user's object itself"""
-    return [clone(c, callees=_C13.CALLEES, lib=_C13.LIB, hooks=_C13.HOOKS, home="c13",
-                  only=lambda k: k in ("wrapped-function-gets-the-right-file", "cache-file-written-from-the-object-itself"))
-            for c in _C13.wrapper]
+    return [clone(c, callees=_C13.CALLEES, lib=_C13.LIB, hooks=_C13.HOOKS, home="c13") for c in _C13.wrapper]
 
 
 def extend(contracts, extra):
@@ -82,3 +80,24 @@ def extend(contracts, extra):
             contracts.append(c)
             have.add(key)
     return contracts
+
+
+PLUMBING_MODULES = ["thejoker.utils", "thejoker.multiproc_helpers", "thejoker.likelihood_helpers", "thejoker.samples", "thejoker.samples_helpers",
+                    "thejoker.data_helpers"]
+READ_ONLY = ["thejoker.utils.read_batch", "thejoker.utils.read_batch_slice", "thejoker.utils.read_batch_idx", "thejoker.utils.read_random_batch",
+             "thejoker.samples.JokerSamples.pack", "thejoker.samples.JokerSamples.unpack", "thejoker.data_helpers.validate_prepare_data",
+             "thejoker.multiproc_helpers.run_worker", "thejoker.multiproc_helpers.marginal_ln_likelihood_worker",
+             "thejoker.multiproc_helpers.make_full_samples_worker", "thejoker.multiproc_helpers.marginal_ln_likelihood_helper",
+             "thejoker.multiproc_helpers.make_full_samples", "thejoker.multiproc_helpers.rejection_sample_helper",
+             "thejoker.multiproc_helpers.iterative_rejection_helper", "thejoker.likelihood_helpers.rejection_sample_inmem",
+             "thejoker.likelihood_helpers.iterative_rejection_inmem", "thejoker.likelihood_helpers.marginal_ln_likelihood_inmem",
+             "thejoker.likelihood_helpers.make_full_samples_inmem", "thejoker.likelihood_helpers.get_trend_design_matrix",
+             "thejoker.likelihood_helpers.get_constant_term_design_matrix", "thejoker.samples_analysis.is_P_unimodal"]
+
+
+def frame_effects(prop):
+    """effect obligations about the plumbing as a whole (AST): nothing it is handed is updated in place, and nothing is remembered between calls"""
+    from jvc import effects
+    out = effects.check_no_inplace_on_borrowed(READ_ONLY, prop)
+    out += [dict(r, name=f"{prop}/effects/" + r["name"]) for r in effects.check_module_state(PLUMBING_MODULES)]
+    return out
